@@ -136,6 +136,7 @@ type Sim struct {
 	Probes map[string]int
 	Faults map[string]int
 	HashSalt uint64
+	tick     int64
 }
 
 // S is the active simulation, nil outside a run (pass-through mode).
@@ -712,4 +713,15 @@ func TaskParent(id int) int {
 		return -1
 	}
 	return S.tasks[id].Parent
+}
+
+// Tick returns a fresh global event sequence number (for history stamps).
+//
+//go:norace
+func Tick() int64 {
+	if S == nil {
+		return 0
+	}
+	S.tick++
+	return S.tick
 }
